@@ -11,7 +11,7 @@ NAMES = ["window_with_count", "buffer_with_count", "window_with_time", "buffer_w
 
 def run(chk):
     chk.build_and_prove()
-    win_table.run_ops(chk, "C18", NAMES, ncase=(30 if chk.tier == "quick" else 500))
+    win_table.run_ops(chk, "C18", NAMES, ncase=(60 if chk.tier == "quick" else 600))
     chk.cov["rule"] = ("per operator: seeded parameters (count/skip 1-5 incl. skip>count and skip<count; timespan/"
                        "timeshift overlapping and gapped; boundary/opening/closing timelines; 12% raising closing "
                        "mappers) x seeded timelines on a small instant grid (coincidences with timer edges and "
